@@ -14,4 +14,22 @@ var specs = map[string]checkSpec{
 		Stubs: append([]string{"the envelope handler (a recorder)"}, commonStubs...),
 		Assume: commonAssume,
 	},
+	"C02": {
+		Level: "exploration",
+		Quick: budget{Runs: 6000, Chunk: 300, Race: 400},
+		Thor:  budget{Seconds: 600, Chunk: 1500, Race: 10},
+		Rule:  "W1: the real queues.RingQueue under 1-3 pusher goroutines and one popper, initial sizes 1-5 (and 256), up to 40 pushes with pops interleaved so that growth happens at every head/tail offset; oracle: pops are a per-pusher-order-preserving interleaving of the pushes, nothing lost, duplicated or nil. W2-W4: whole-system scenarios (per-sender FIFO at the behaviour across ring growth, immediate kill overtakes queued user mail, poison kill after it, stash order).",
+		Real:  []string{"internal/queues.RingQueue", "internal/mailbox.UnboundedMailbox", "internal/actor (whole system variants)"},
+		Stubs: commonStubs,
+		Assume: commonAssume,
+	},
+	"C05": {
+		Level: "exploration",
+		Quick: budget{Runs: 1500, Chunk: 100},
+		Thor:  budget{Seconds: 900, Chunk: 300},
+		Rule:  "Whole-system scenarios on a real ActorSystem: a supervised tree (one-for-one or one-for-all, 1-3 children, optional grandchildren, with/without provider), 4-17 operations from 1-2 outside senders (tells, panics, Failed, Become, spawns with a failing Prelaunch, failing scheduled messages, failures while handling a child's OnKilled, failing OnLaunch, kills), supervision decisions drawn per failure; then probes, Stop, quiescence. Oracle: per actor path the behaviour-visible trace of every incarnation is OnLaunch any* [OnKill] OnKilled(self), nothing after the own OnKilled, no foreign OnLaunch, behaviour stack reset, fresh instance with a provider, failed spawns receive nothing.",
+		Real:  commonReal,
+		Stubs: commonStubs,
+		Assume: commonAssume,
+	},
 }
